@@ -83,7 +83,20 @@ class CallsMixin:
             return self.mk_list(st, v.ty.args[0], ln, arr, kind=kind)
         m = self.iter_model(v, st)
         if m.setlike is not None:
-            raise Unsupported('list(set): order is unspecified')
+            if v.ty.kind != 'Set':
+                raise Unsupported('list(set-like): order is unspecified')
+            # an arbitrary enumeration of the set: fresh array `a`, fresh position function `pos`, length = card(S);
+            # a[0..n) are members, every member sits at pos(x), pos(a[i]) == i (so the items are distinct)
+            ety = v.ty.args[0]
+            sterm = self.load(v, st)
+            n = self.call_builtin_vals('len', [v], st).t
+            a = z3.Const(fresh_name('enum'), z3.ArraySort(z3.IntSort(), sort_of(ety)))
+            pos = z3.Function(fresh_name('enum_pos'), sort_of(ety), z3.IntSort())
+            i = z3.Int(fresh_name('i'))
+            x = z3.Const(fresh_name('x'), sort_of(ety))
+            st.pc.append(z3.ForAll([i], z3.Implies(z3.And(i >= 0, i < n), z3.And(T.Sel(sterm, z3.Select(a, i)), pos(z3.Select(a, i)) == i))))
+            st.pc.append(z3.ForAll([x], z3.Implies(T.Sel(sterm, x), z3.And(pos(x) >= 0, pos(x) < n, z3.Select(a, pos(x)) == x))))
+            return self.mk_list(st, ety, n, a, kind=kind)
         i = z3.Int(fresh_name('i'))
         it = m.item(i, st)
         if it.ty.kind == 'Tuple' and it.t is None:
